@@ -136,7 +136,52 @@ def aliasing_probe(ctx, root):
         if {k: v for k, v in c3.data.items()} != {k: v for k, v in before2.items()}:
             ctx.fail('a second config built from the same context sees different values than the first', case,
                      {'first': str(before2)[:300], 'second': str(dict(c3.data))[:300]})
+    # ---- the same with ONE prepared Context object handed to several configs (a parameter sweep over global_vars, say): the
+    #      configs own copies of the global and of the per-namespace values
+    from taskchain import Context
+    for variant in range(ctx.n(6, 40)):
+        cdict = {'x': [1, {'k': ['{V}']}], 'for_namespaces': {'n': {'y': ['{V}/a', {'d': [3]}]}, 'other': {'y': 0}}}
+        cobj = Context.prepare_context(copy.deepcopy(cdict)) if variant % 2 else Context(data=copy.deepcopy(cdict), name='probe')
+        snap = (copy.deepcopy(dict(cobj.data)), copy.deepcopy({k: dict(v) for k, v in cobj.for_namespaces.items()}))
+        case = {'probe': 'aliasing-context-object', 'variant': variant}
+        ctx.case(case); ctx.count('aliasing-probe:context-object')
+        gv1, gv2 = ({'V': 'v1'}, {'V': 'v2'}) if variant % 3 else (None, None)
+        c1 = Config(root / 'ad', str(b.path('p.json')), context=cobj, namespace='n', global_vars=gv1)
+        c2 = Config(root / 'ad', str(b.path('p.json')), context=cobj, namespace='n', global_vars=gv2)
+        now = (dict(cobj.data), {k: dict(v) for k, v in cobj.for_namespaces.items()})
+        if _plain(now) != _plain(snap):
+            ctx.fail('building a config changed the Context object it was given', case, {'before': _plain(snap), 'after': _plain(now)})
+            continue
+        if gv1 and (_plain(c1.data.get('y')) != ['v1/a', {'d': [3]}] or _plain(c2.data.get('y')) != ['v2/a', {'d': [3]}]):
+            ctx.fail('a config built from a shared Context object sees the values substituted for another config', case,
+                     {'first': _plain(c1.data.get('y')), 'second': _plain(c2.data.get('y'))})
+        before2 = copy.deepcopy(dict(c2.data))
+        for v in c1.data.values():
+            if isinstance(v, list):
+                v.append('MUT')
+                for w in v:
+                    if isinstance(w, dict):
+                        w['MUT'] = 1
+            elif isinstance(v, dict):
+                v['MUT'] = 1
+        if _plain(dict(c2.data)) != _plain(before2):
+            ctx.fail('two configs built from one Context object share a mutable value', case,
+                     {'changed': [k for k in before2 if _plain(before2[k]) != _plain(c2.data.get(k))]})
+        now = (dict(cobj.data), {k: dict(v) for k, v in cobj.for_namespaces.items()})
+        if _plain(now) != _plain(snap):
+            ctx.fail('a config shares a mutable value with the Context object it was built from', case, {})
     b.cleanup_module()
+
+
+def _plain(x):
+    """strings (incl. substituted ones) by their text"""
+    if isinstance(x, dict):
+        return {str(k): _plain(v) for k, v in x.items()}
+    if isinstance(x, (list, tuple)):
+        return [_plain(v) for v in x]
+    if isinstance(x, str):
+        return str(x)
+    return x
 
 
 def run(ctx):
